@@ -464,4 +464,331 @@ theorem step_lint_files (f : Fns) (cur : List Entry) (s : State) (u : UrlKind) (
   simp only [step]
   split <;> rfl
 
+/-! ### w26: the JS linter — `import_words`, `export_words` + `new Linter` (`harper-wasm/src/lib.rs`) -/
+
+theorem step_lint_js (f : Fns) (cur : List Entry) (s : State) (u : UrlKind) (n : Nat)
+    (qs : List Word) : (step f cur s (.lint u n qs)).1.js = s.js := by
+  simp only [step]
+  split <;> rfl
+
+theorem length_insert_ge (f : Fns) (w : Word) (d : List Word) :
+    d.length ≤ (insert f w d).length := by
+  induction d with
+  | nil => simp [insert]
+  | cons e d ih =>
+    simp only [insert]
+    split
+    · simp
+    · simpa using ih
+
+theorem length_insertAll_ge (f : Fns) (ws : List Word) :
+    ∀ d, d.length ≤ (insertAll f d ws).length := by
+  induction ws with
+  | nil => intro d; exact Nat.le_refl _
+  | cons w ws ih => intro d; exact Nat.le_trans (length_insert_ge f w d) (ih _)
+
+/-- in a keyed map two entries with one key are one entry -/
+theorem eq_of_key_eq (f : Fns) (d : List Word) (hu : UniqueKeys f d) :
+    ∀ a ∈ d, ∀ b ∈ d, key f a = key f b → a = b := by
+  induction d with
+  | nil => intro a ha; cases ha
+  | cons e d ih =>
+    have ⟨h1, h2⟩ := List.pairwise_cons.mp hu
+    intro a ha b hb hk
+    rcases List.mem_cons.mp ha with ha' | ha' <;> rcases List.mem_cons.mp hb with hb' | hb'
+    · rw [ha', hb']
+    · rw [ha'] at hk; exact absurd hk (h1 b hb')
+    · rw [hb'] at hk; exact absurd hk.symm (h1 a ha')
+    · exact ih h2 a ha' b hb' hk
+
+theorem mem_of_mem_insertAll (f : Fns) (x : Word) (ws : List Word) :
+    ∀ d, x ∈ insertAll f d ws → x ∈ d ∨ x ∈ ws := by
+  induction ws with
+  | nil => intro d h; exact Or.inl h
+  | cons w ws ih =>
+    intro d h
+    rcases ih (insert f w d) h with h | h
+    · rcases mem_of_mem_insert f w x d h with h | h
+      · exact Or.inr (by simp [h])
+      · exact Or.inl h
+    · exact Or.inr (List.mem_cons_of_mem _ h)
+
+/-- `extend_words` keeps (or brings in) `w` when no word of the batch with `w`'s key is spelt differently -/
+theorem mem_insertAll (f : Fns) (w : Word) (ws : List Word) :
+    (∀ x ∈ ws, key f x = key f w → x = w) → ∀ d, (w ∈ d ∨ w ∈ ws) → w ∈ insertAll f d ws := by
+  induction ws with
+  | nil =>
+    intro _ d h
+    rcases h with h | h
+    · exact h
+    · cases h
+  | cons x ws ih =>
+    intro hk d h
+    have hk' : ∀ y ∈ ws, key f y = key f w → y = w := fun y hy => hk y (List.mem_cons_of_mem _ hy)
+    have hin : w ∈ insert f x d ∨ w ∈ ws := by
+      rcases h with h | h
+      · by_cases hkx : key f w = key f x
+        · have : x = w := hk x (by simp) hkx.symm
+          rw [this]; exact Or.inl (mem_insert_self f w d)
+        · exact Or.inl (mem_insert_of_ne f x w d h hkx)
+      · rcases List.mem_cons.mp h with h | h
+        · rw [h]; exact Or.inl (mem_insert_self f x d)
+        · exact Or.inr h
+    exact ih hk' (insert f x d) hin
+
+/-- `word_count` grows when the batch holds a word whose key the map lacks -/
+theorem length_insertAll_lt (f : Fns) (w : Word) (ws : List Word) :
+    w ∈ ws → ∀ d, (∀ e ∈ d, key f e ≠ key f w) → d.length < (insertAll f d ws).length := by
+  induction ws with
+  | nil => intro h; cases h
+  | cons x ws ih =>
+    intro hw d hd
+    by_cases hkx : key f x = key f w
+    · have hfresh : ∀ e ∈ d, key f e ≠ key f x := fun e he => by rw [hkx]; exact hd e he
+      have h1 : (insert f x d).length = d.length + 1 := by rw [insert_fresh f x d hfresh]; simp
+      have h2 := length_insertAll_ge f ws (insert f x d)
+      show d.length < (insertAll f (insert f x d) ws).length
+      omega
+    · have hw' : w ∈ ws := by
+        rcases List.mem_cons.mp hw with h | h
+        · exact absurd (by rw [h]) hkx
+        · exact h
+      have hd' : ∀ e ∈ insert f x d, key f e ≠ key f w := by
+        intro e he
+        rcases mem_of_mem_insert f x e d he with h | h
+        · rw [h]; exact hkx
+        · exact hd e h
+      have h1 := ih hw' (insert f x d) hd'
+      have h2 := length_insert_ge f x d
+      show d.length < (insertAll f (insert f x d) ws).length
+      omega
+
+/-- no two different spellings of one key among the words: what makes the word map behave like a set -/
+abbrev NoCollision (f : Fns) (ws : List Word) : Prop :=
+  ∀ a ∈ ws, ∀ b ∈ ws, key f a = key f b → a = b
+
+theorem insert_eq_or_append (f : Fns) (w : Word) (d : List Word)
+    (h : ∀ e ∈ d, key f e = key f w → e = w) : insert f w d = d ∨ insert f w d = d ++ [w] := by
+  induction d with
+  | nil => exact Or.inr rfl
+  | cons e d ih =>
+    simp only [insert]
+    split
+    · rename_i hk
+      have hk : key f e = key f w := by simpa using hk
+      rw [h e (by simp) hk]; exact Or.inl rfl
+    · rcases ih (fun x hx => h x (List.mem_cons_of_mem _ hx)) with h' | h'
+      · rw [h']; exact Or.inl rfl
+      · rw [h']; exact Or.inr rfl
+
+/-- without collisions a batch either changes nothing or makes the map longer -/
+theorem insertAll_eq_or_longer (f : Fns) (ws : List Word) :
+    ∀ d, NoCollision f (d ++ ws) → insertAll f d ws = d ∨ d.length < (insertAll f d ws).length := by
+  induction ws with
+  | nil => intro d _; exact Or.inl rfl
+  | cons w ws ih =>
+    intro d hc
+    have hw : ∀ e ∈ d, key f e = key f w → e = w :=
+      fun e he hk => hc e (by simp [he]) w (by simp) hk
+    show insertAll f (insert f w d) ws = d ∨ d.length < (insertAll f (insert f w d) ws).length
+    rcases insert_eq_or_append f w d hw with h | h
+    · rw [h]
+      exact ih d (fun a ha b hb => hc a (by
+        rcases List.mem_append.mp ha with ha | ha
+        · simp [ha]
+        · simp [ha]) b (by
+        rcases List.mem_append.mp hb with hb | hb
+        · simp [hb]
+        · simp [hb]))
+    · rw [h]
+      have hc' : NoCollision f ((d ++ [w]) ++ ws) := by
+        intro a ha b hb
+        exact hc a (by simpa using ha) b (by simpa using hb)
+      have h2 := length_insertAll_ge f ws (d ++ [w])
+      right
+      simp at h2
+      omega
+
+/-- what a later operation may be for the imported word `w` to stay accepted by the JS linter: a later
+`import_words` batch must not hold a DIFFERENT spelling of `w`'s key (the case-variant staleness of
+`C07.js_import_case_variant_stale`); everything else — `new Linter` + `import_words(export_words())` in any
+order, lints, and all the language-server operations, which do not touch the JS linter — is harmless -/
+def BenignJs (f : Fns) (w : Word) : Op → Prop
+  | .jsImport ws => ∀ x ∈ ws, key f x = key f w → x = w
+  | _ => True
+
+instance (f : Fns) (w : Word) : DecidablePred (BenignJs f w) := fun op => by
+  cases op <;> unfold BenignJs <;> infer_instance
+
+/-- the invariant of "accepted from then on" for the JS linter: both dictionaries are keyed maps and both
+hold `w` (the lint dictionary may lag behind `user_dictionary`, so both are carried) -/
+abbrev JsHolds (f : Fns) (w : Word) (js : Js) : Prop :=
+  UniqueKeys f js.user ∧ UniqueKeys f js.lint ∧ w ∈ js.user ∧ w ∈ js.lint
+
+theorem jsHolds_importWords (f : Fns) (w : Word) (ws : List Word) (js : Js)
+    (hk : ∀ x ∈ ws, key f x = key f w → x = w) (h : JsHolds f w js) :
+    JsHolds f w (js.importWords f ws) := by
+  obtain ⟨hu, hl, hwu, hwl⟩ := h
+  have hu' := uniqueKeys_insertAll f ws js.user hu
+  have hm' := mem_insertAll f w ws hk js.user (Or.inl hwu)
+  simp only [JsHolds, Js.importWords]
+  refine ⟨hu', ?_, hm', ?_⟩ <;> split
+  · exact hu'
+  · exact hl
+  · exact hm'
+  · exact hwl
+
+/-- `import_words` of a batch that holds `w`, whose key is new: the count grows, the lint dictionary is rebuilt -/
+theorem jsHolds_import_new (f : Fns) (w : Word) (ws : List Word) (js : Js)
+    (hu : UniqueKeys f js.user) (hnew : ∀ e ∈ js.user, key f e ≠ key f w) (hw : w ∈ ws)
+    (hk : ∀ x ∈ ws, key f x = key f w → x = w) : JsHolds f w (js.importWords f ws) := by
+  have hu' := uniqueKeys_insertAll f ws js.user hu
+  have hm' := mem_insertAll f w ws hk js.user (Or.inr hw)
+  have hlt := length_insertAll_lt f w ws hw js.user hnew
+  simp only [JsHolds, Js.importWords, gt_iff_lt, hlt, if_true]
+  exact ⟨hu', hu', hm', hm'⟩
+
+/-- `new Linter` + `import_words(export_words())`, the export in any order -/
+theorem jsHolds_restart (f : Fns) (w : Word) (ord : List Word) (js : Js) (h : JsHolds f w js) :
+    JsHolds f w (Js.importWords f (orderOf ord js.user) {}) := by
+  obtain ⟨hu, _, hwu, _⟩ := h
+  have hp := orderOf_perm ord js.user
+  have hup := uniqueKeys_perm f hp hu
+  refine jsHolds_import_new f w _ {} List.Pairwise.nil (fun e he => by cases he)
+    (hp.mem_iff.mpr hwu) ?_
+  intro x hx hkx
+  exact eq_of_key_eq f _ hup x hx w (hp.mem_iff.mpr hwu) hkx
+
+theorem benignJs_step (f : Fns) (cur : List Entry) (w : Word) (s : State) (op : Op)
+    (hb : BenignJs f w op) (h : JsHolds f w s.js) : JsHolds f w (step f cur s op).1.js := by
+  cases op with
+  | jsImport ws => exact jsHolds_importWords f w ws s.js hb h
+  | jsRestart ord => exact jsHolds_restart f w ord s.js h
+  | jsLint _ => exact h
+  | add _ _ => exact h
+  | crashAdd _ _ _ _ => exact h
+  | restart => exact h
+  | addFile u n w' ord => rw [step_addFile_js]; exact h
+  | lint u n qs => rw [step_lint_js]; exact h
+
+theorem benignJs_runOps (f : Fns) (cur : List Entry) (w : Word) (rest : List Op) :
+    ∀ s : State, (∀ op ∈ rest, BenignJs f w op) → JsHolds f w s.js →
+      JsHolds f w (runOps f cur s rest).js := by
+  induction rest with
+  | nil => intro s _ h; exact h
+  | cons op rest ih =>
+    intro s hb h
+    exact ih _ (fun o ho => hb o (List.mem_cons_of_mem _ ho))
+      (benignJs_step f cur w s op (hb op (by simp)) h)
+
+/-- the `user_dictionary` of the JS linter is a keyed map whatever happens -/
+theorem uniqueKeys_js_step (f : Fns) (cur : List Entry) (s : State) (op : Op)
+    (h : UniqueKeys f s.js.user) : UniqueKeys f (step f cur s op).1.js.user := by
+  cases op with
+  | jsImport ws => exact uniqueKeys_insertAll f ws _ h
+  | jsRestart ord => exact uniqueKeys_insertAll f _ [] List.Pairwise.nil
+  | jsLint _ => exact h
+  | add _ _ => exact h
+  | crashAdd _ _ _ _ => exact h
+  | restart => exact h
+  | addFile u n w' ord => rw [step_addFile_js]; exact h
+  | lint u n qs => rw [step_lint_js]; exact h
+
+theorem uniqueKeys_js_runOps (f : Fns) (cur : List Entry) (ops : List Op) :
+    ∀ s : State, UniqueKeys f s.js.user → UniqueKeys f (runOps f cur s ops).js.user := by
+  induction ops with
+  | nil => intro s h; exact h
+  | cons op ops ih => intro s h; exact ih _ (uniqueKeys_js_step f cur s op h)
+
+/-- the words of the `import_words` calls of a history -/
+def jsImports : List Op → List Word
+  | [] => []
+  | .jsImport ws :: ops => ws ++ jsImports ops
+  | _ :: ops => jsImports ops
+
+/-- a collision-free `import_words` on a synchronised linter leaves it synchronised, holding the old words
+and the batch -/
+theorem importWords_sync (f : Fns) (ws : List Word) (js : Js) (hs : js.lint = js.user)
+    (hcol : NoCollision f (js.user ++ ws)) :
+    (js.importWords f ws).lint = (js.importWords f ws).user ∧
+    ∀ x, x ∈ (js.importWords f ws).user ↔ x ∈ js.user ∨ x ∈ ws := by
+  constructor
+  · simp only [Js.importWords]
+    split
+    · rfl
+    · rename_i hgt
+      rcases insertAll_eq_or_longer f ws js.user hcol with h | h
+      · rw [h, hs]
+      · exact absurd h hgt
+  · intro x
+    refine ⟨mem_of_mem_insertAll f x ws js.user, fun hx => ?_⟩
+    refine mem_insertAll f x ws (fun y hy hk => ?_) js.user hx
+    refine hcol y (by simp [hy]) x ?_ hk
+    rcases hx with hx | hx
+    · simp [hx]
+    · simp [hx]
+
+/-- `new Linter` + `import_words(export_words())` rebuilds exactly the exported sequence, in both
+dictionaries -/
+theorem js_restart_exact (f : Fns) (ord : List Word) (js : Js) (hu : UniqueKeys f js.user) :
+    Js.importWords f (orderOf ord js.user) {} = ⟨orderOf ord js.user, orderOf ord js.user⟩ := by
+  have hup := uniqueKeys_perm f (orderOf_perm ord js.user) hu
+  have hi : insertAll f [] (orderOf ord js.user) = orderOf ord js.user := by
+    simpa using insertAll_unique f (orderOf ord js.user) [] (by simpa using hup)
+  simp only [Js.importWords, hi]
+  cases orderOf ord js.user <;> simp
+
+theorem js_sync_from (f : Fns) (cur : List Entry) (ops : List Op) :
+    ∀ (s : State) (acc : List Word), s.js.lint = s.js.user →
+      (∀ w, w ∈ s.js.user ↔ w ∈ acc) → NoCollision f (acc ++ jsImports ops) →
+      (∀ w, w ∈ (runOps f cur s ops).js.user ↔ w ∈ acc ++ jsImports ops) ∧
+      (runOps f cur s ops).js.lint = (runOps f cur s ops).js.user := by
+  induction ops with
+  | nil => intro s acc hs hm _; exact ⟨by simpa [runOps, jsImports] using hm, hs⟩
+  | cons op ops ih =>
+    intro s acc hs hm hcol
+    have same : ∀ s' : State, s'.js = s.js → jsImports (op :: ops) = jsImports ops →
+        (∀ w, w ∈ (runOps f cur s' ops).js.user ↔ w ∈ acc ++ jsImports (op :: ops)) ∧
+        (runOps f cur s' ops).js.lint = (runOps f cur s' ops).js.user := by
+      intro s' hs' hj
+      rw [hj] at hcol ⊢
+      exact ih s' acc (by rw [hs']; exact hs) (by rw [hs']; exact hm) hcol
+    cases op with
+    | add _ _ => exact same _ rfl rfl
+    | crashAdd _ _ _ _ => exact same _ rfl rfl
+    | restart => exact same _ rfl rfl
+    | jsLint _ => exact same _ rfl rfl
+    | addFile u n w' ord => exact same _ (step_addFile_js f cur s u n w' ord) rfl
+    | lint u n qs => exact same _ (step_lint_js f cur s u n qs) rfl
+    | jsImport ws =>
+      have hc0 : NoCollision f (s.js.user ++ ws) := by
+        intro a ha b hb
+        refine hcol a ?_ b ?_
+        · rcases List.mem_append.mp ha with h | h
+          · simp [(hm a).mp h]
+          · simp [jsImports, h]
+        · rcases List.mem_append.mp hb with h | h
+          · simp [(hm b).mp h]
+          · simp [jsImports, h]
+      obtain ⟨h1, h2⟩ := importWords_sync f ws s.js hs hc0
+      have := ih (step f cur s (.jsImport ws)).1 (acc ++ ws) h1
+        (fun x => by rw [List.mem_append, ← hm x]; exact h2 x)
+        (by simpa [jsImports] using hcol)
+      simpa [runOps, jsImports] using this
+    | jsRestart ord =>
+      have hp := orderOf_perm ord s.js.user
+      have hc0 : NoCollision f (({} : Js).user ++ orderOf ord s.js.user) := by
+        intro a ha b hb
+        have ha' : a ∈ s.js.user := hp.mem_iff.mp (by simpa using ha)
+        have hb' : b ∈ s.js.user := hp.mem_iff.mp (by simpa using hb)
+        exact hcol a (by simp [(hm a).mp ha']) b (by simp [(hm b).mp hb'])
+      obtain ⟨h1, h2⟩ := importWords_sync f (orderOf ord s.js.user) {} rfl hc0
+      have hj : jsImports (Op.jsRestart ord :: ops) = jsImports ops := rfl
+      rw [hj] at hcol ⊢
+      exact ih (step f cur s (.jsRestart ord)).1 acc h1
+        (fun x => by
+          rw [← hm x]
+          refine (h2 x).trans ?_
+          simp [hp.mem_iff]) hcol
+
 end Harper.DictIO
